@@ -3,6 +3,7 @@ NEXT TNext
 POSTCONDITION AllConsumed
 CHECK_DEADLOCK FALSE
 CONSTANTS
+  Isas = {"x64"}
   MaxBlocks = 1
   Templates = {"o23"}
   Layouts = {"none"}
